@@ -106,6 +106,7 @@ type lstate struct {
 	Parts     map[int]string
 	UpKey     string
 	Pending   map[string]string // copy in flight: body read from the source ("\x00" = source missing)
+	Uploads   map[string]bool   // ids handed out by concurrent initiate requests
 }
 
 func (s *lstate) clone() *lstate {
@@ -125,6 +126,12 @@ func (s *lstate) clone() *lstate {
 	}
 	for k, v := range s.Pending {
 		n.Pending[k] = v
+	}
+	if len(s.Uploads) > 0 {
+		n.Uploads = map[string]bool{}
+		for k := range s.Uploads {
+			n.Uploads[k] = true
+		}
 	}
 	return n
 }
@@ -301,6 +308,32 @@ func lstep(st *lstate, in cOp, out cOut) (bool, *lstate) {
 		n.Upload = false
 		n.Parts = map[int]string{}
 		return out.Status == 204, n
+	case "initiate":
+		if !st.Bucket {
+			return out.Status == 404, st
+		}
+		// every acknowledged initiate hands out an id of its own
+		if out.Status != 200 || out.VerID == "" || st.Uploads[out.VerID] {
+			return false, st
+		}
+		n := st.clone()
+		if n.Uploads == nil {
+			n.Uploads = map[string]bool{}
+		}
+		n.Uploads[out.VerID] = true
+		return true, n
+	case "listuploads":
+		if !st.Bucket {
+			return out.Status == 404, st
+		}
+		var want []string
+		for id := range st.Uploads {
+			want = append(want, id)
+		}
+		sort.Strings(want)
+		got := append([]string{}, out.List...)
+		sort.Strings(got)
+		return out.Status == 200 && sameList(got, want), st
 	case "listparts":
 		if !st.Upload {
 			return out.Status == 404, st
@@ -365,6 +398,10 @@ func c07Scenarios() []c07Scenario {
 		{name: "five-clients-two-keys", kinds: []drv.Kind{drv.Mem, drv.MultiMem}, lessBound: 1, setupOps: []cOp{{Kind: "put", Key: "k", Body: "A"}},
 			threads: [][]cOp{{{Kind: "put", Key: "k", Body: "BB"}}, {{Kind: "copy", Key: "k", Key2: "k2"}}, {{Kind: "delete", Key: "k2"}}, {{Kind: "get", Key: "k2"}}, {{Kind: "list"}}},
 			final:   []cOp{{Kind: "get", Key: "k"}, {Kind: "get", Key: "k2"}, {Kind: "list"}}},
+		// concurrent initiates: every acknowledged upload id is distinct and all of them are listed
+		{name: "initiate-initiate-listuploads", kinds: []drv.Kind{drv.Mem, drv.Bolt},
+			threads: [][]cOp{{{Kind: "initiate", Key: "k"}}, {{Kind: "initiate", Key: "k"}}, {{Kind: "initiate", Key: "k2"}, {Kind: "listuploads"}}},
+			final:   []cOp{{Kind: "listuploads"}}},
 		{name: "put-put-get", kinds: allSchedKinds, setupOps: []cOp{{Kind: "put", Key: "k", Body: "A"}},
 			threads: [][]cOp{{{Kind: "put", Key: "k", Body: "BB"}}, {{Kind: "put", Key: "k", Body: "CCC"}}, {{Kind: "get", Key: "k"}}},
 			final:   []cOp{{Kind: "get", Key: "k"}, {Kind: "list"}}},
@@ -521,6 +558,18 @@ func (r *c07Runner) exec(op cOp) cOut {
 		resp = bodyReq("POST", b+"/k", drv.Q("uploadId", r.uploadID), nil, string(completeBody(op.Parts)), 1)
 	case "abort":
 		resp = r.serve(drv.Req{Method: "DELETE", Path: b + "/k", Query: drv.Q("uploadId", r.uploadID)})
+	case "initiate":
+		resp = r.serve(drv.Req{Method: "POST", Path: b + "/" + op.Key, Query: "uploads"})
+		if n := resp.XML(); n != nil && resp.Status == 200 {
+			out.VerID = n.T("UploadId")
+		}
+	case "listuploads":
+		resp = r.serve(drv.Req{Method: "GET", Path: b, Query: "uploads"})
+		up := drv.ParseUploads(resp)
+		out.List = []string{}
+		for _, u := range up.Uploads {
+			out.List = append(out.List, u.ID)
+		}
 	case "listparts":
 		resp = r.serve(drv.Req{Method: "GET", Path: b + "/k", Query: drv.Q("uploadId", r.uploadID)})
 		pp := drv.ParseParts(resp)
@@ -543,7 +592,9 @@ func (r *c07Runner) exec(op cOp) cOut {
 	if resp.Header != nil {
 		out.Len = resp.Header.Get("Content-Length")
 		out.Meta = resp.Header.Get("x-amz-meta-a")
-		out.VerID = resp.Header.Get("x-amz-version-id")
+		if op.Kind != "initiate" {
+			out.VerID = resp.Header.Get("x-amz-version-id")
+		}
 	}
 	if op.Kind == "get" || op.Kind == "getver" || op.Kind == "delete-undelete-get" {
 		if resp.Status == 200 {
